@@ -376,7 +376,9 @@ def invalid_block_case(seed, apk_name, sig_name, gen_names):
         [[fr.choice(gen_names)] for _ in range(2) if gen_names]
     for prior in hist:
         for max_sdk in (None, 23, 30):
-            res = _invalid_block_query(apk_name, sig_name, prior, max_sdk)
+            # every history starts from a clean process state (a fork of this worker before it has run anything of the
+            # history): histories must not influence each other through state the code under test keeps in the process
+            res = core.isolated(_invalid_block_query, apk_name, sig_name, prior, max_sdk)
             n += 1
             fired["invalid-block-queried"] = fired.get("invalid-block-queried", 0) + 1
             if prior:
@@ -385,7 +387,9 @@ def invalid_block_case(seed, apk_name, sig_name, gen_names):
                 cur = problems.get("C32:accepted:invalid-block")
                 # keep the example whose history is most explicit: an acceptance seen with an empty history may rest on what
                 # earlier cases left behind in this worker process and would then not replay from a clean state
-                if cur is None or len(prior) > len(cur["fault"][6]):
+                better = cur is None or (not cur["fault"][6] and prior) or (prior and len(prior) < len(cur["fault"][6]))
+                # (the shortest non-empty history: long ones may depend on cache sizes / eviction order)
+                if better:
                     problems["C32:accepted:invalid-block"] = {
                         "msg": f"{apk_name} {sig_name}: the block's signature does not verify (independent check) but a "
                                f"certificate is reported (max_sdk_version={max_sdk}, archives processed before: {prior})",
@@ -408,8 +412,10 @@ def worker(seed):
         cands = [c for c in cands if "signed-attrs" in c[0]] or cands
     elif k < 0.45:                 # archives with several signature blocks / mixed key types (corpus/apksig-gen, see gen/mk_v1_apks.py)
         cands = [c for c in cands if c[0].startswith("gen-")] or cands
-    elif k < 0.55:                 # blocks that must not yield a certificate at all
-        cands = [c for c in cands if "forged" in c[0] or "wrong-" in c[0] or "missing-digest" in c[0]] or cands
+    elif k < 0.53:                 # forged blocks (certificate swapped for one with the same issuer and serial, other key)
+        cands = [c for c in cands if "forged" in c[0]] or cands
+    elif k < 0.60:                 # apksig's own negative samples: blocks that must not yield a certificate at all
+        cands = [c for c in cands if "wrong-" in c[0] or "missing-digest" in c[0]] or cands
     apk_name, sigs = r.choice(cands)
     sig_name = r.choice(sigs)
     p, why = plan(apk_name, sig_name)
